@@ -146,11 +146,11 @@ def generate(ctx):
         n = len(rows)
         st = inp["ca"].type
         if direction == "flatten_pack":
-            labels, lkind = gen.gen_labels(rng, n, rng.choice(["range", "sorted_unique", "str"]))
+            labels, lkind = gen.gen_labels(rng, n, rng.choice(["range", "sorted_unique", "str", "range_offset", "range_offset"]))
             if lkind == "str":
                 labels = sorted(labels)
             codes = fo.label_codes(labels)
-            s = pd.Series(inp["arr"], index=labels, name="n")
+            s = pd.Series(inp["arr"], index=gen.as_index(labels, lkind), name="n")       # a genuine RangeIndex where the labels are a range
 
             def run2():
                 back = pack_flat(s.nest.to_flat(), name="n")
